@@ -157,6 +157,8 @@ func mkSteps(spec ...string) []step {
 			s.kind, s.method, s.ext, s.ck = kPost, "POST", selOther, selOther
 		case "other-in-extractor":
 			s.kind, s.method, s.ext, s.ck = kPost, "POST", selOther, selOwn
+		case "no-extractor-value":
+			s.kind, s.method, s.ext, s.ck = kPost, "POST", selEmpty, selOwn
 		case "delete-token-post":
 			s.kind, s.method, s.ext, s.ck = kDel, "POST", selOwn, selOwn
 		case "delete-token-get":
@@ -438,13 +440,14 @@ func corpus(e *ev.Env) {
 		st[2].ext, st[2].ck, st[2].label = selFuture, selFuture, "predicted-next-token"
 		runHistory(e, c, &histSpec{cfg: cfg, nClients: 1, steps: st}, nil, "")
 	})
-	// Same root cause, other direction: the header slot is reused by another header of a request
-	// without a token, the stored key no longer reads as the token, the valid token is lost.
+	// Same root cause, other direction: the header slot that held the token is overwritten in place by
+	// a shorter header value of another request ("https"), then re-allocated for a longer one; the
+	// stored key keeps pointing at the abandoned bytes and the valid token is lost.
 	e.Corpus("keyref-header-valid-token-lost", func(c *ev.Case) {
 		cfg := fixedCfg(bKeyRef, "header", false)
 		cfg.reuseCtx, cfg.mode = true, smProxyHTTPS
 		cfg.req = hostTuple("https", cfg.host)
-		runHistory(e, c, &histSpec{cfg: cfg, nClients: 2, steps: mkSteps("fetch:0", "own:0", "own:1", "own:0")}, nil, "")
+		runHistory(e, c, &histSpec{cfg: cfg, nClients: 2, steps: mkSteps("fetch:0", "own:0", "fetch:1", "no-extractor-value:1", "own:0")}, nil, "")
 	})
 	// Smallest fault witness: single-use token, the consuming Delete fails, the token is replayed.
 	e.Corpus("fault-single-use-delete", func(c *ev.Case) {
